@@ -795,7 +795,7 @@ class Engine:
         return FuncV("repo", q, node=base.module.funcs[q], module=base.module)
       raise Unsupported(f"class attribute {base.name}.{attr}")
     if isinstance(base, Opaque):
-      return Opaque(f"{base.why}.{attr}")
+      return FuncV("builtin_method", attr, selfv=base)
     if isinstance(base, self.th.EnumV):
       if attr in base.members:
         return base.members[attr]
@@ -1446,7 +1446,7 @@ class Engine:
     elif isinstance(target, ast.Subscript):
       base = self.ev(target.value, st)
       if isinstance(target.slice, ast.Slice):
-        raise Unsupported("slice assignment")
+        return self.th.slice_assign(self, st, base, target.slice, v, target)
       idx = self.ev(target.slice, st)
       self.setitem(st, base, idx, v, target)
     else:
@@ -1678,7 +1678,7 @@ class Engine:
     if lc.get("unroll"):
       return self.unroll_while(s, st)
     # no loop contract: try concrete execution first (if the condition stays concrete we simply interpret)
-    if not declared:
+    if not declared and not (isinstance(s.test, ast.Constant) and s.test.value is True):
       done = self.try_concrete_while(s, st)
       if done:
         return
@@ -1862,6 +1862,8 @@ class Engine:
       hi = self.th.concretize(self, st, seq[2])
       seq = ("concrete", list(range(lo, hi, seq[3])))
     force_cut = bool(lc and (lc["cut"] or lc["invariant"]))
+    if force_cut and isinstance(it, range):
+      seq = ("range", it.start, it.stop, it.step)
     if seq[0] == "concrete" and not force_cut:
       if len(seq[1]) > self.UNROLL_MAX and not (lc and lc["unroll"]):
         raise Unsupported(f"concrete loop of {len(seq[1])} iterations without cut")
@@ -2044,6 +2046,9 @@ class Engine:
         raise Unsupported(f"parameter {n} has no declared type in the contract")
       env[n] = self.fresh_heap(st, c.params[n], n)
       self.record_input(st, n, env[n])
+    for gname, gt in c.ghost_params.items():
+      env[gname] = self.fresh_heap(st, gt, gname)
+      self.record_input(st, "ghost:" + gname, env[gname])
     fr = Frame(env, None, module, cls=cls, fname=c.qual)
     st.frames.append(fr)
     for g, t in c.ghost.items():
@@ -2052,7 +2057,7 @@ class Engine:
     try:
       for g, expr in c.ghost_init.items():
         st.ghost[g] = self.ev(ast.parse(expr, mode="eval").body, st)
-      for cl in c.requires:
+      for cl in c.requires + c.ghost_requires:
         st.assume(self.truthy(st, self.ev(cl.node, st)))
       for cl in c.hints + c.defines:
         st.assume(self.truthy(st, self.ev(cl.node, st)))
@@ -2145,11 +2150,12 @@ class Engine:
     st.spec_depth += 1
     st.old = (entry_env, entry_snap)
     try:
-      for cl in c.ensures:
+      for cl in c.ensures + c.ghost_ensures:
         if not cl.serves(self.prop):
           continue
         g = self.truthy(st, self.ev(cl.node, st))
-        self.emit(st, "post", f"{c.qual}/post:{cl.text}", g, clause=cl.text, props=cl.props)
+        tag = f"[{cl.name}]" if cl.name else ""
+        self.emit(st, "post", f"{c.qual}/post{tag}:{cl.text}", g, clause=cl.text, props=cl.props)
     finally:
       st.spec_depth -= 1
       st.frames.pop()
